@@ -22,6 +22,7 @@ import (
 	"github.com/ohler55/ojg/sen"
 
 	"verif/harness/absval"
+	"verif/harness/plib"
 )
 
 // ---------------------------------------------------------------------------------------------
@@ -507,37 +508,62 @@ func safeCall(f func(any) string, d any) (s string) {
 
 // ---- parser cross-check ----
 
+// parseModes: whole-buffer Parse, then ParseReader with the reader delivering the text whole (4096-byte buffer
+// refills inside the parser), in 1-byte, 3-byte and 7-byte reads and in halves (plib.Chunked).
+var parseModes = []string{"parse", "whole", "1", "3", "7", "half"}
+
 func parseOne(c convCase) abs {
-	out := abs{"ev": "parse", "text": c.Text, "gerr": false, "oerr": false, "g": abs{"t": "null", "g": "nil"}, "o": abs{"t": "null", "g": "nil"}}
-	func() {
-		defer func() {
-			if r := recover(); r != nil {
-				out["gerr"] = true
+	rs := []any{}
+	for _, mode := range parseModes {
+		r := abs{"m": mode, "gerr": false, "oerr": false, "g": abs{"t": "null", "g": "nil"}, "o": abs{"t": "null", "g": "nil"}}
+		func() {
+			defer func() {
+				if x := recover(); x != nil {
+					r["gerr"] = true
+				}
+			}()
+			p := gen.Parser{}
+			var n gen.Node
+			var err error
+			if mode == "parse" {
+				n, err = p.Parse([]byte(c.Text))
+			} else {
+				n, err = p.ParseReader(plib.Chunked([]byte(c.Text), mode))
 			}
-		}()
-		p := gen.Parser{}
-		n, err := p.Parse([]byte(c.Text))
-		if err != nil {
-			out["gerr"] = true
-			return
-		}
-		out["g"] = typedNode(n)
-	}()
-	func() {
-		defer func() {
-			if r := recover(); r != nil {
-				out["oerr"] = true
+			if err != nil {
+				r["gerr"] = true
+				return
 			}
+			r["g"] = typedNode(n)
 		}()
-		p := oj.Parser{}
-		v, err := p.Parse([]byte(c.Text))
-		if err != nil {
-			out["oerr"] = true
-			return
-		}
-		out["o"] = typedNode(alt.Generify(v, keepOpt))
-	}()
-	return out
+		func() {
+			defer func() {
+				if x := recover(); x != nil {
+					r["oerr"] = true
+				}
+			}()
+			p := oj.Parser{}
+			var v any
+			var err error
+			if mode == "parse" {
+				v, err = p.Parse([]byte(c.Text))
+			} else {
+				v, err = p.ParseReader(plib.Chunked([]byte(c.Text), mode))
+			}
+			if err != nil {
+				r["oerr"] = true
+				return
+			}
+			r["o"] = typedNode(alt.Generify(v, keepOpt))
+		}()
+		rs = append(rs, r)
+	}
+	// the text itself is not judged; long padded texts are cut in the log
+	txt := c.Text
+	if len(txt) > 200 {
+		txt = txt[:60] + "..." + txt[len(txt)-120:]
+	}
+	return abs{"ev": "parse", "text": txt, "rs": rs}
 }
 
 func convExec(args []string) {
@@ -726,6 +752,50 @@ func (g *cgen) jsonText(depth int) string {
 	return b.String()
 }
 
+// stringText: containers of strings where escaped strings (which go through the parsers' scratch buffers) are
+// followed by plain ones, as values and as keys.
+func (g *cgen) stringText() string {
+	esc := []string{`"a\nb"`, `"\"q\""`, `"x\\y"`, `"\u0041bc"`, `"tab\there"`, `"\/"`, `"long\n` + strings.Repeat("z", 1+g.r.Intn(40)) + `"`}
+	plain := []string{`"p"`, `"plain"`, `""`, `"` + strings.Repeat("w", 1+g.r.Intn(30)) + `"`, `"123"`}
+	item := func() string {
+		if g.r.Intn(2) == 0 {
+			return esc[g.r.Intn(len(esc))]
+		}
+		return plain[g.r.Intn(len(plain))]
+	}
+	n := 2 + g.r.Intn(5)
+	var b bytes.Buffer
+	if g.r.Intn(2) == 0 {
+		b.WriteString("[")
+		for i := 0; i < n; i++ {
+			if i > 0 {
+				b.WriteString([]string{",", ", ", ",\n "}[g.r.Intn(3)])
+			}
+			if g.r.Intn(6) == 0 {
+				b.WriteString([]string{"1", "null", "[" + item() + "]", `{"k":` + item() + "}"}[g.r.Intn(4)])
+			} else {
+				b.WriteString(item())
+			}
+		}
+		b.WriteString("]")
+	} else {
+		b.WriteString("{")
+		for i := 0; i < n; i++ {
+			if i > 0 {
+				b.WriteString(",")
+			}
+			// distinct keys: a plain or escaped key text made unique by its index
+			k := `"k` + strconv.Itoa(i) + `"`
+			if g.r.Intn(3) == 0 {
+				k = `"k\t` + strconv.Itoa(i) + `"`
+			}
+			b.WriteString(k + []string{":", ": ", " :"}[g.r.Intn(3)] + item())
+		}
+		b.WriteString("}")
+	}
+	return b.String()
+}
+
 func convRand(args []string) {
 	fs := flag.NewFlagSet("convrand", flag.ExitOnError)
 	n := fs.Int("n", 1000, "number of random conversion cases (the same number of writer and parser cases is added)")
@@ -757,7 +827,29 @@ func convRand(args []string) {
 		}
 		enc.Encode(abs{"ev": "conv", "op": op, "tree": tr, "muts": muts})
 		enc.Encode(abs{"ev": "write", "tree": g.tree(1 + g.r.Intn(3))})
-		enc.Encode(abs{"ev": "parse", "text": g.jsonText(1 + g.r.Intn(3))})
+		txt := g.jsonText(1 + g.r.Intn(3))
+		switch g.r.Intn(4) {
+		case 0:
+			txt = g.stringText()
+		case 1:
+			// pad so that one of the quotes is the last byte of the parser's 4096-byte read
+			txt = g.stringText()
+			var qs []int
+			for k := 0; k < len(txt); k++ {
+				if txt[k] == '"' {
+					qs = append(qs, k)
+				}
+			}
+			if len(qs) > 0 {
+				q := qs[g.r.Intn(len(qs))]
+				pad := (4095 - q%4096 + 4096) % 4096
+				if g.r.Intn(3) == 0 {
+					pad += 4096
+				}
+				txt = strings.Repeat(" ", pad) + txt
+			}
+		}
+		enc.Encode(abs{"ev": "parse", "text": txt})
 	}
 }
 
